@@ -41,8 +41,9 @@ TCaseEnd == /\ Ev("case_end") /\ Quiescent /\ XQuiescent /\ ~hx.failed
 (***************************************************************************)
 Iota(a, k) == [i \in 1..k |-> a + i - 1]
 ZItems(obs, pred) == IF Len(obs) = Len(pred) THEN pred ELSE obs
-SortedLoose == CHOOSE s \in [1..Cardinality(loose) -> loose] :
-                  \A i, j \in 1..Cardinality(loose) : i < j => s[i] < s[j]
+RECURSIVE SortedSeq(_)
+SortedSeq(S) == IF S = {} THEN <<>> ELSE LET m == SetMin(S) IN <<m>> \o SortedSeq(S \ {m})
+SortedLoose == SortedSeq(loose)      \* (not a CHOOSE over [1..k -> loose]: k^k functions)
 
 PredOuts(r) ==
     IF IsCbOp(op.name)
